@@ -61,7 +61,8 @@ pub fn meta(id: &str) -> Option<Meta> {
 
 pub fn plan(id: &str, tier: Tier) -> Plan {
     let n = crate::explore::ncpu();
-    let q = |a: f64, b: f64| if tier.thorough() { b } else { a };
+    let over: Option<f64> = std::env::var("VERIF_CAP_OVERRIDE").ok().and_then(|s| s.parse().ok());
+    let q = |a: f64, b: f64| over.unwrap_or(if tier.thorough() { b } else { a });
     match id {
         "C15" => Plan { cap_s: 30.0, shards: 1, seeded: false },
         "C17" => Plan { cap_s: q(55.0, 900.0), shards: n, seeded: false },
